@@ -1,8 +1,8 @@
 package main
 
 import (
-	"database/sql/driver"
 	"context"
+	"database/sql/driver"
 	"encoding/json"
 	"flag"
 	"fmt"
@@ -22,6 +22,18 @@ import (
 
 // two slice inputs: different argument shapes can have the same number of parameters
 const l5SQL = "SELECT &Row.* FROM t WHERE a IN ($Ints[:]) OR b IN ($Strs[:])"
+
+// the same shapes on a statement without outputs (concurrent runs: every other Statement)
+const l5ExecSQL = "UPDATE t SET c = 0 WHERE a IN ($Ints[:]) OR b IN ($Strs[:])"
+
+// l5All runs the query to its end: GetAll for a statement with outputs, Run for one without.
+func l5All(q *sqlair.Query, noOut bool) error {
+	if noOut {
+		return q.Run()
+	}
+	var rows []Row
+	return q.GetAll(&rows)
+}
 
 // l5Args builds the arguments of shape k (0..8): slice lengths (k/3, k%3).
 func l5Args(k int) (zoo.Ints, zoo.Strs) {
@@ -466,11 +478,11 @@ type l5ConcObs struct {
 	// transaction's; TxRuns: statements issued through transactions
 	// DupIDs: live Statements sharing a cache id; StmtEntriesLeft: Statement entries in the
 	// cache after everything was dropped and collected
-	DupIDs          int `json:"dupIDs"`
-	StmtEntriesLeft int `json:"stmtEntriesLeft"`
-	TxStray         int `json:"txStray"`
-	TxRuns  int    `json:"txRuns"`
-	Panic   string `json:"panic,omitempty"`
+	DupIDs          int    `json:"dupIDs"`
+	StmtEntriesLeft int    `json:"stmtEntriesLeft"`
+	TxStray         int    `json:"txStray"`
+	TxRuns          int    `json:"txRuns"`
+	Panic           string `json:"panic,omitempty"`
 }
 
 func runL5Conc(r *rng.R, threads, perThread int) (obs *l5ConcObs) {
@@ -498,6 +510,8 @@ func runL5Conc(r *rng.R, threads, perThread int) (obs *l5ConcObs) {
 	// prepared at the same moment by as many goroutines: every one gets its own place in
 	// the cache (C11: "for all histories ... over several Statements")
 	stmts := make([]*sqlair.Statement, nS)
+	noOut := map[*sqlair.Statement]bool{} // (read-only once the goroutines run)
+	par := r.Intn(2)
 	extra := make([]*sqlair.Statement, 16*16)
 	{
 		startP := make(chan struct{})
@@ -509,6 +523,9 @@ func runL5Conc(r *rng.R, threads, perThread int) (obs *l5ConcObs) {
 				<-startP
 				for k := 0; k < 16; k++ {
 					s, _ := sqlair.Prepare(l5SQL, Row{}, zoo.Ints{}, zoo.Strs{})
+					if (g*16+k+par)%2 == 1 {
+						s, _ = sqlair.Prepare(l5ExecSQL, zoo.Ints{}, zoo.Strs{})
+					}
 					extra[g*16+k] = s
 					if i := g*16 + k; i < nS {
 						stmts[i] = s
@@ -518,6 +535,9 @@ func runL5Conc(r *rng.R, threads, perThread int) (obs *l5ConcObs) {
 		}
 		close(startP)
 		wgp.Wait()
+		for i, s := range stmts {
+			noOut[s] = (i+par)%2 == 1
+		}
 		seenID := map[uint64]bool{}
 		for _, s := range extra { // (the run's own Statements are the first of them)
 			id := hookStatementID(s)
@@ -563,7 +583,7 @@ func runL5Conc(r *rng.R, threads, perThread int) (obs *l5ConcObs) {
 					// Statements the other goroutines run on the DB), then Commit or Rollback
 					txid := t*10000 + i
 					bctx := context.WithValue(context.Background(), fakedrv.CtxKey{}, fmt.Sprintf("txB-%d", txid))
-					tx, berr := dbs[di].db.Begin(bctx, nil)
+					tx, berr := dbs[di].db.Begin(bctx, []*sqlair.TXOptions{nil, {}, {ReadOnly: true}}[txid%3])
 					if berr != nil {
 						mu.Lock()
 						obs.Errors = append(obs.Errors, "begin: "+berr.Error())
@@ -581,8 +601,7 @@ func runL5Conc(r *rng.R, threads, perThread int) (obs *l5ConcObs) {
 						}
 						ctx := context.WithValue(context.Background(), fakedrv.CtxKey{}, fmt.Sprintf("d%d-k%d-x%d", di+1, shape, txid))
 						ints, strs := l5Args(shape)
-						var rows []Row
-						err := tx.Query(ctx, s, ints, strs).GetAll(&rows)
+						err := l5All(tx.Query(ctx, s, ints, strs), noOut[s])
 						if k == 0 && tr.Chance(1, 2) {
 							// the same shape on the DB in between: the pair's cache entry changes
 							// while the transaction is open
@@ -591,8 +610,7 @@ func runL5Conc(r *rng.R, threads, perThread int) (obs *l5ConcObs) {
 							// by a deadline so that goroutines cannot wait for each other for ever)
 							c2, cancel2 := context.WithTimeout(context.WithValue(context.Background(), fakedrv.CtxKey{}, fmt.Sprintf("d%d-k%d", di+1, shape2)), 20*time.Millisecond)
 							i2, s2 := l5Args(shape2)
-							var r2 []Row
-							dbs[di].db.Query(c2, s, i2, s2).GetAll(&r2)
+							l5All(dbs[di].db.Query(c2, s, i2, s2), noOut[s])
 							cancel2()
 						}
 						mu.Lock()
@@ -614,19 +632,27 @@ func runL5Conc(r *rng.R, threads, perThread int) (obs *l5ConcObs) {
 					continue
 				}
 				ctx := context.WithValue(context.Background(), fakedrv.CtxKey{}, fmt.Sprintf("d%d-k%d", di+1, shape))
+				if !stress && tr.Chance(1, 12) {
+					// the context ends at the very moment the driver has prepared a statement (this
+					// call's, or whichever goroutine's Prepare comes next on this DB): whatever was
+					// prepared is still released in the end
+					var cancelP context.CancelFunc
+					ctx, cancelP = context.WithCancel(ctx)
+					defer cancelP()
+					dbs[di].state.CancelNext("prepare", cancelP)
+				}
 				ints, strs := l5Args(shape)
 				q := dbs[di].db.Query(ctx, s, ints, strs)
 				if !stress && tr.Chance(1, 4) {
 					runtime.GC()
 				}
 				var err error
-				if !stress && open == nil && tr.Chance(1, 4) {
+				if !stress && open == nil && !noOut[s] && tr.Chance(1, 4) {
 					// keep an iterator open across the following operations
 					open = q.Iter()
 					open.Next()
 				} else {
-					var rows []Row
-					err = q.GetAll(&rows)
+					err = l5All(q, noOut[s])
 				}
 				if open != nil && tr.Chance(1, 2) {
 					if cerr := open.Close(); cerr != nil {
